@@ -5,7 +5,7 @@
      ENDDEFS
      INIT <now> <plans of dev0>;<plans of dev1>;...          plans = comma list of now|pending|fail, or -
      ROUND <now> <accept 0|1>
-       C <index in client list> <flags: subset of b i o> <read: ~ none | ! error | - eof | hex> <wrote: ~ | ! | n>
+       C <index in client list> <flags: subset of b i o x (x = a blocking write to this client fails)> <read: ~ none | ! error | - eof | hex> <wrote: ~ | ! | n>
        D <device index> <flags: subset of h e n o i> <read> <wrote> <finish 0|1> <plans>
      GO
    stdout per INIT / round: event lines, `TMO`, `LEDGER <fds> <kids>`, `END` *)
@@ -91,8 +91,8 @@ let () =
     | Exit (c, s) -> Printf.printf "OUTCOME Exit %d\nEND\n" (int_of_nat s); dead := true
     | Ok _ -> () in
   let rnow = ref Z0 and racc = ref false and rcli = ref [] and rdev = ref [] in
-  let cin0 = { ci_bad = false; ci_in = false; ci_out = false; ci_read = None; ci_wrote = None } in
-  let pin0 = { pi_hup = false; pi_err = false; pi_nval = false; pi_out = false; pi_in = false; pi_read = None; pi_wrote = None; pi_finish_ok = true; pi_plans = [] } in
+  let cin0 = { ci_bad = false; ci_in = false; ci_out = false; ci_read = None; ci_wrote = None; ci_flush_ok = true } in
+  let pin0 = { pi_hup = false; pi_err = false; pi_nval = false; pi_out = false; pi_in = false; pi_read = None; pi_wrote = None; pi_finish_ok = true; pi_plans = []; pi_pre = None } in
   let rec set_nth l i x d = match l, i with
     | [], 0 -> [x] | [], _ -> d :: set_nth [] (i - 1) x d
     | _ :: r, 0 -> x :: r | y :: r, _ -> y :: set_nth r (i - 1) x d in
@@ -112,7 +112,7 @@ let () =
         (match !cur with Some (n, t, p, pl, scr, spec, pipe) -> cur := Some (n, t, p, pl, (z_of_int (int_of_string com), parse_all toks) :: scr, spec, pipe) | None -> ())
     | ["ENDDEFS"] -> flush_cur ();
         st := Some { dm_nodes = !nodes; dm_aliases = !aliases; dm_specs = !specs; dm_pipe = !pipes; dm_devs = !devs; dm_clients = [];
-                     dm_seq = z_of_int 1; dm_store = []; dm_version = !version }
+                     dm_seq = z_of_int 1; dm_store = []; dm_version = !version; dm_tel = List.map (fun _ -> telnet_init) !devs }
     | ["INIT"; now; pl] ->
         (match !st with Some s ->
           (match dinit s (z_of_dec now) (List.map plans (String.split_on_char ';' pl)) with
@@ -121,10 +121,11 @@ let () =
          | None -> ())
     | ["ROUND"; now; acc] -> rnow := z_of_dec now; racc := (acc = "1"); rcli := []; rdev := []
     | ["C"; i; fl; r; w] ->
-        rcli := set_nth !rcli (int_of_string i) { ci_bad = has 'b' fl; ci_in = has 'i' fl; ci_out = has 'o' fl; ci_read = rd r; ci_wrote = wr w } cin0
+        rcli := set_nth !rcli (int_of_string i) { ci_bad = has 'b' fl; ci_in = has 'i' fl; ci_out = has 'o' fl; ci_read = rd r; ci_wrote = wr w;
+                                                  ci_flush_ok = not (has 'x' fl) } cin0
     | ["D"; i; fl; r; w; fin; pl] ->
         rdev := set_nth !rdev (int_of_string i) { pi_hup = has 'h' fl; pi_err = has 'e' fl; pi_nval = has 'n' fl; pi_out = has 'o' fl; pi_in = has 'i' fl;
-                                                  pi_read = rd r; pi_wrote = wr w; pi_finish_ok = (fin = "1"); pi_plans = plans pl } pin0
+                                                  pi_read = rd r; pi_wrote = wr w; pi_finish_ok = (fin = "1"); pi_plans = plans pl; pi_pre = None } pin0
     | ["GO"] ->
         (match !st with Some s ->
           (match dstep expand_str ranged_sorted ranged_plain sorted rmatch compress !sc s { r_now = !rnow; r_accept = !racc; r_cli = !rcli; r_dev = !rdev } with
